@@ -177,7 +177,9 @@ impl Generator {
 //@ret r
 //@rewrite R2
 //@contract
-    ensures r == (if top_mark(self.view()) >= 0 { Some((self.view().len() - 1 - top_mark(self.view())) as usize) } else { None::<usize> }),
+    ensures
+        top_mark(self.view()) >= 0 ==> r.is_some() && r.unwrap() as int == self.view().len() - 1 - top_mark(self.view()),
+        top_mark(self.view()) < 0 ==> r.is_none(),
 //@loop 1
             invariant
                 vf_c <= self.state.stack.inner.len(),
@@ -252,6 +254,41 @@ impl Generator {
                 proof { lemma_top_mark_unique(self.view(), idx as int); }
 //@before 1 false
         proof { lemma_top_mark_unique(self.view(), -1); }
+//@endfn
+
+    /// what a `true` answer of can_emit must imply (C01 stack, C02 memo side, C03 kinds, C10 flags,
+    /// C06 no FRAME, never STOP, PROTO at most once)
+    pub open spec fn guard_ok(&self, op: OpcodeKind, r: RefState) -> bool {
+        &&& op != OpcodeKind::Stop && op != OpcodeKind::Frame
+        &&& ref_pre_stack(op, r)
+        &&& !self.unsafe_mutations ==> ref_pre_kind(op, r)
+        &&& is_get(op) ==> self.state.memo@.len() > 0
+        &&& (is_put(op) || op == OpcodeKind::Memoize) ==> r.stack.len() >= 1 && r.stack.last() != Kind::Mark
+        &&& (op == OpcodeKind::Ext1 || op == OpcodeKind::Ext2 || op == OpcodeKind::Ext4) ==> self.allow_ext_opcodes
+        &&& (op == OpcodeKind::NextBuffer || op == OpcodeKind::ReadOnlyBuffer) ==> self.allow_buffer_opcodes
+        &&& op == OpcodeKind::Proto ==> !self.state.proto_emitted
+    }
+
+//@arms src/generator/validation.rs Generator::can_emit opcode
+//@ret res
+//@ghost Ghost(r): Ghost<RefState>
+//@rewrite R11?
+//@prelude
+        proof { lemma_top_mark_compat(self.view(), r.stack); lemma_top_mark_props(r.stack); }
+//@contract
+    requires
+        self.rel(r),
+    ensures
+        res ==> self.guard_ok(opcode, r),
+//@arm SetItems
+//@prelude
+        assert(self.view().len() == r.stack.len());
+        assert(items_above_mark(r.stack) == self.view().len() - 1 - top_mark(self.view()));
+//@arm Dict
+//@prelude
+        assert(self.view().len() == r.stack.len());
+        assert(items_above_mark(r.stack) == self.view().len() - 1 - top_mark(self.view()));
+
 //@endfn
 
 }
